@@ -325,10 +325,74 @@ def rule_b(ctx: Context, R: Reporter):
 
 
 # ------------------------------------------------------------------ C12.c / d
+class RetTuple:
+    """One way a function returns a tuple: the return node and the element
+    expressions in order.  Literal tuples give one RetTuple per return statement;
+    `out = [a, b]; if p: out.append(c); return tuple(out)` gives one per distinct
+    element sequence over the acyclic paths from the list's definition to the
+    return (the single-exit spelling of several literal returns)."""
+
+    def __init__(self, node, elts, stmt):
+        self.node = node
+        self.elts = elts
+        self.stmt = stmt
+
+
+def return_tuples(fi: FuncInfo) -> List[RetTuple]:
+    flow = flow_of(fi.node)
+    cfg = flow.cfg
+    out: List[RetTuple] = []
+    for n in cfg.stmt_nodes():
+        if n.kind != "stmt" or not isinstance(n.stmt, ast.Return) or n.stmt.value is None:
+            continue
+        v = n.stmt.value
+        if isinstance(v, ast.Tuple):
+            out.append(RetTuple(n, list(v.elts), n.stmt))
+            continue
+        name = None
+        if isinstance(v, ast.Call) and dotted(v.func) == "tuple" and len(v.args) == 1 and isinstance(v.args[0], ast.Name):
+            name = v.args[0].id
+        elif isinstance(v, ast.Name):
+            name = v.id
+        if name is None:
+            continue
+        defs = [d for d in flow.reaching(n, name) if d.kind == "assign" and isinstance(d.value, (ast.List, ast.Tuple)) and not d.path]
+        if len(defs) != 1 or len(flow.reaching(n, name)) != 1:
+            continue
+        d0 = defs[0]
+        try:
+            paths = cfg.acyclic_paths(d0.node.id, n.id, limit=4000)
+        except OverflowError:
+            continue
+        seqs = {}
+        for p in paths:
+            elts = list(d0.value.elts)
+            ok = True
+            for (nid, lab) in p[1:]:
+                nd = cfg.nodes[nid]
+                if nd.ast is None:
+                    continue
+                for c in ast.walk(nd.ast) if nd.kind in ("stmt",) else []:
+                    if isinstance(c, ast.Call) and isinstance(c.func, ast.Attribute) and isinstance(c.func.value, ast.Name) and c.func.value.id == name:
+                        if c.func.attr == "append" and len(c.args) == 1:
+                            elts.append(c.args[0])
+                        elif c.func.attr == "extend" and len(c.args) == 1 and isinstance(c.args[0], (ast.List, ast.Tuple)):
+                            elts.extend(c.args[0].elts)
+                        else:
+                            ok = False
+            if ok:
+                seqs.setdefault(tuple(norm_text(e) for e in elts), elts)
+        for elts in seqs.values():
+            out.append(RetTuple(n, elts, n.stmt))
+    return out
+
+
 def posterior_fn(ctx: Context) -> FuncInfo:
     cands = []
     for fi in ctx.prog.functions.values():
-        rets = [r for r in walk_no_nested(fi.node) if isinstance(r, ast.Return) and isinstance(r.value, ast.Tuple)]
+        if not any(isinstance(r, ast.Return) and r.value is not None for r in walk_no_nested(fi.node)):
+            continue
+        rets = return_tuples(fi) if any(a.mode == "read" and a.space == "history" for a in ctx.state.in_func(fi)) else []
         reads = {a.key for a in ctx.state.in_func(fi) if a.mode == "read" and a.space == "history"}
         if len(rets) >= 2 and {"x", "logl"} <= reads:
             cands.append(fi)
@@ -366,11 +430,12 @@ def rule_c(ctx: Context, R: Reporter):
     fi = posterior_fn(ctx)
     flow = flow_of(fi.node)
     tg = Tagger(ctx, fi)
-    rets = [n for n in flow.cfg.stmt_nodes() if n.kind == "stmt" and isinstance(n.stmt, ast.Return) and isinstance(n.stmt.value, ast.Tuple)]
-    R.floor("C12.c", "return tuples of posterior()", len(rets), 4)
+    rts = return_tuples(fi)
+    R.floor("C12.c", "return tuples of posterior()", len(rts), 4)
     n_arr = 0
-    for rn in rets:
-        elts = rn.stmt.value.elts
+    for rt in rts:
+        rn = rt.node
+        elts = rt.elts
         hist: Dict[str, Set[int]] = {}
         for e in elts:
             if not isinstance(e, ast.Name):
@@ -468,9 +533,10 @@ def rule_d(ctx: Context, R: Reporter):
     flow = flow_of(fi.node)
     tg = Tagger(ctx, fi)
     shapes = set()
-    for rn in flow.cfg.stmt_nodes():
-        if rn.kind == "stmt" and isinstance(rn.stmt, ast.Return) and isinstance(rn.stmt.value, ast.Tuple):
-            tags = [(tg.tag(e, rn) or (name_tag(e.id) if isinstance(e, ast.Name) else None)) for e in rn.stmt.value.elts]
+    for rt in return_tuples(fi):
+        rn = rt.node
+        if True:
+            tags = [(tg.tag(e, rn) or (name_tag(e.id) if isinstance(e, ast.Name) else None)) for e in rt.elts]
             ok = tags[:3] == ["x", "weights", "logl"] and tags[3:] in ([], ["blobs"], ["logw"], ["blobs", "logw"])
             shapes.add(tuple(tags))
             R.check("C12.d", "return tuple has the shape (x, weights, logl[, blobs][, logw])", ok, fi, rn.stmt,
@@ -554,9 +620,10 @@ def rule_e(ctx: Context, R: Reporter):
     tg = Tagger(ctx, fi)
     n = 0
     seen = set()
-    for rn in flow.cfg.stmt_nodes():
-        if rn.kind == "stmt" and isinstance(rn.stmt, ast.Return) and isinstance(rn.stmt.value, ast.Tuple) and len(rn.stmt.value.elts) >= 2:
-            w = rn.stmt.value.elts[1]
+    for rt in return_tuples(fi):
+        rn = rt.node
+        if len(rt.elts) >= 2:
+            w = rt.elts[1]
             if not isinstance(w, ast.Name):
                 raise AnalysisError(f"C12.e: returned weights `{unparse(w)}` are not a plain name")
             for d in flow.reaching(rn, w.id):
